@@ -450,7 +450,11 @@ class MsgpackSerializer(SerializerBase):
         return msgpack.packb(data, use_bin_type=True, default=self.default)
 
     def loadsCall(self, data):
-        return msgpack.unpackb(self._convertToBytes(data), raw=False, object_hook=self.object_hook, ext_hook=self.ext_hook)
+        call = msgpack.unpackb(self._convertToBytes(data), raw=False, object_hook=self.object_hook, ext_hook=self.ext_hook)
+        if not isinstance(call, (list, tuple)) or len(call) != 4:
+            # (the object hook rebuilds class dicts at every depth: the caller must not be handed, say, a Proxy to unpack)
+            raise errors.SerializeError("malformed call message")
+        return call
 
     def loads(self, data):
         return msgpack.unpackb(self._convertToBytes(data), raw=False, object_hook=self.object_hook, ext_hook=self.ext_hook)
